@@ -280,6 +280,72 @@ theorem bp8_xor4_is_fold (a b c d : V3) :
 /-- non-vacuity: a five-operand list (longer than any form the code offers) -/
 example : specXor [V3.one, ⟨true, false, true⟩, V3.zero, V3.one, ⟨false, true, true⟩] = ⟨true, true, true⟩ := by decide
 
+/-! ## the same for the 4-valued storage format (`bp4v_*`) -/
+theorem any_p2_toV3 (xs : List V2) : (xs.map V2.toV3).any (·.p2) = false := by
+  induction xs with
+  | nil => rfl
+  | cons x xs ih => simp [List.any_cons, V2.toV3, ih]
+
+theorem toV3_ofV3_of_p2 (r : V3) (h : r.p2 = false) : (V2.ofV3 r).toV3 = r := by
+  rcases r with ⟨a, b, c⟩; simp only at h; subst h; rfl
+
+theorem specAnd_p2_toV3 (xs : List V2) : (specAnd (xs.map V2.toV3)).p2 = false := by
+  unfold specAnd; split
+  · rfl
+  · split
+    · rfl
+    · exact any_p2_toV3 xs
+theorem specOr_p2_toV3 (xs : List V2) : (specOr (xs.map V2.toV3)).p2 = false := by
+  unfold specOr; split
+  · rfl
+  · split
+    · rfl
+    · exact any_p2_toV3 xs
+theorem specXor_p2_toV3 (xs : List V2) : (specXor (xs.map V2.toV3)).p2 = false := by
+  unfold specXor; split
+  · rfl
+  · exact any_p2_toV3 xs
+
+theorem spec4And_cons (x : V2) (xs : List V2) : spec4And (x :: xs) = spec4And [x, spec4And xs] := by
+  simp only [spec4And, List.map_cons, List.map_nil]
+  rw [toV3_ofV3_of_p2 _ (specAnd_p2_toV3 xs), ← specAnd_cons]
+theorem spec4Or_cons (x : V2) (xs : List V2) : spec4Or (x :: xs) = spec4Or [x, spec4Or xs] := by
+  simp only [spec4Or, List.map_cons, List.map_nil]
+  rw [toV3_ofV3_of_p2 _ (specOr_p2_toV3 xs), ← specOr_cons]
+theorem spec4Xor_cons (x : V2) (xs : List V2) : spec4Xor (x :: xs) = spec4Xor [x, spec4Xor xs] := by
+  simp only [spec4Xor, List.map_cons, List.map_nil]
+  rw [toV3_ofV3_of_p2 _ (specXor_p2_toV3 xs), ← specXor_cons]
+
+/-- 4-valued storage: for operand lists of ANY length the 4-valued algebra is the right fold of the recorded REAL
+    2-operand `bp4v_*` expression -/
+theorem bp4_and_fold (xs : List V2) :
+    spec4And xs = xs.foldr (fun x acc => (bp4v_and2 (.ofV2 x) (.ofV2 acc)).toV2) ⟨true, true⟩ := by
+  induction xs with
+  | nil => rfl
+  | cons x xs ih => rw [spec4And_cons, List.foldr_cons, ← ih, bp4_and2_spec]
+theorem bp4_or_fold (xs : List V2) :
+    spec4Or xs = xs.foldr (fun x acc => (bp4v_or2 (.ofV2 x) (.ofV2 acc)).toV2) ⟨false, false⟩ := by
+  induction xs with
+  | nil => rfl
+  | cons x xs ih => rw [spec4Or_cons, List.foldr_cons, ← ih, bp4_or2_spec]
+theorem bp4_xor_fold (xs : List V2) :
+    spec4Xor xs = xs.foldr (fun x acc => (bp4v_xor2 (.ofV2 x) (.ofV2 acc)).toV2) ⟨false, false⟩ := by
+  induction xs with
+  | nil => rfl
+  | cons x xs ih => rw [spec4Xor_cons, List.foldr_cons, ← ih, bp4_xor2_spec]
+theorem bp4_or4_is_fold (a b c d : V2) :
+    (bp4v_or4 (.ofV2 a) (.ofV2 b) (.ofV2 c) (.ofV2 d)).toV2 =
+      [a, b, c, d].foldr (fun x acc => (bp4v_or2 (.ofV2 x) (.ofV2 acc)).toV2) ⟨false, false⟩ := by
+  rw [bp4_or4_spec, bp4_or_fold]
+theorem bp4_and4_is_fold (a b c d : V2) :
+    (bp4v_and4 (.ofV2 a) (.ofV2 b) (.ofV2 c) (.ofV2 d)).toV2 =
+      [a, b, c, d].foldr (fun x acc => (bp4v_and2 (.ofV2 x) (.ofV2 acc)).toV2) ⟨true, true⟩ := by
+  rw [bp4_and4_spec, bp4_and_fold]
+theorem bp4_xor4_is_fold (a b c d : V2) :
+    (bp4v_xor4 (.ofV2 a) (.ofV2 b) (.ofV2 c) (.ofV2 d)).toV2 =
+      [a, b, c, d].foldr (fun x acc => (bp4v_xor2 (.ofV2 x) (.ofV2 acc)).toV2) ⟨false, false⟩ := by
+  rw [bp4_xor4_spec, bp4_xor_fold]
+
 /-- non-vacuity / sanity: RISE and FALL give a positive pulse under AND in either order and grouping -/
 example : specAnd [⟨true, false, true⟩, ⟨false, true, true⟩, V3.one] = ⟨false, false, true⟩ := by decide
 
